@@ -15,6 +15,7 @@ import Driver.C07
 import Driver.C05
 import Driver.C10
 import Driver.C01
+import Driver.C11
 
 def main (args : List String) : IO UInt32 := do
   match args with
@@ -35,4 +36,5 @@ def main (args : List String) : IO UInt32 := do
   | ["c05"] => Driver.C05.run; return 0
   | ["c10"] => Driver.C10.run; return 0
   | ["c01"] => Driver.C01.run; return 0
+  | ["c11"] => Driver.C11.run; return 0
   | _ => IO.eprintln "usage: bufmodel <property-protocol>"; return 2
